@@ -344,7 +344,7 @@ def callee_universe(pool=('x', 'y')):
     return universe(2, list(pool))
 
 
-def gen_programs(rng, count, tainted=False, contexts=None, routes=None):
+def gen_programs(rng, count, tainted=False, contexts=None, routes=None, valid_only=True):
     outers = outer_universe()
     cal_xy = callee_universe(('x', 'y'))
     cal_ab = callee_universe(('a', 'x'))     # may collide with wrapper names
@@ -388,7 +388,7 @@ def gen_programs(rng, count, tainted=False, contexts=None, routes=None):
                 names = rng.sample(kwable, rng.randint(1, len(kwable)))
             if rng.random() < 0.05:
                 names.append(id_of_name('z'))
-            if not literal_part_binds(cps, n, names):
+            if valid_only and not literal_part_binds(cps, n, names):
                 ok = False
                 break
             va = has_va and rng.random() < 0.85
